@@ -2,7 +2,7 @@
    on every run): they compile only while the regenerated loop directions, lexsort threshold,
    order[::-1] statements and kind defaults are the ones the theorems need. *)
 Require Import SF.Prelude SF.Dtype SF.Value SF.PyDyn SF.SortCore SF.SortModel.
-Require Import Proofs.SortStable Proofs.SortLex Proofs.SortRefine Gen.Gen_util Gen.Gen_c12.
+Require Import Proofs.SortStable Proofs.SortLex Proofs.SortRefine Proofs.SortCache Gen.Gen_util Gen.Gen_c12.
 
 Lemma code_params_good : code_params = good_params.
 Proof. reflexivity. Qed.
@@ -63,6 +63,22 @@ Lemma code_index_sort_refines : forall depth labels asc,
   hier_ok depth labels (S_order keys (length labels) asc) = true ->
   M_index_sort code_params depth labels None asc = Ok (S_index_sort labels keys asc).
 Proof. rewrite code_params_good. exact index_sort_refines. Qed.
+
+Lemma code_cache_params_good : code_cache_params = good_cache_params.
+Proof. reflexivity. Qed.
+
+(* grow-only hierarchical index, any history: the lexsort keys are those of the current labels *)
+Lemma code_ih_key_vectors_current : forall ops st depth, ih_coherent st -> (2 <= depth)%nat ->
+  ih_key_vectors code_cache_params (ih_run code_cache_params ops st) depth =
+  index_keys depth (ih_labels st ++ flat_map ih_op_labels ops).
+Proof. rewrite code_cache_params_good. exact ih_key_vectors_current. Qed.
+
+Example ex_stale_cache_drops_labels :
+  ih_key_vectors (mk_cache_params RefreshOnMissingTable true true)
+    (ih_run (mk_cache_params RefreshOnMissingTable true true) [IhAppend (VTup [VStr "a"; VInt 9])]
+            (mk_ih_state [VTup [VStr "b"; VInt 2]] (Some [VTup [VStr "b"; VInt 2]]) false)) 2
+  = [[VStr "b"]; [VInt 2]].
+Proof. vm_compute. reflexivity. Qed.
 
 (* non-trivial instances (the guards are satisfiable; ties, NaN, negative keys, two key columns) *)
 Example ex_order_two_keys :
